@@ -36,6 +36,8 @@ type Obligation struct {
 	File    string
 	Alts    []*Obligation // per-return-point split of a merged post-condition
 	Pre     bool          // already decided at generation time (ground evaluation)
+	Twin    bool          // vacuity twin: the goal conjoined with an unconstrained boolean; must NOT be provable
+	TwinOf  *Obligation
 	HasAlts bool
 }
 
@@ -90,7 +92,7 @@ type FuncVC struct {
 	closures   map[*ssa.MakeClosure][]Val
 	globalRefs map[string]Term
 	globalDone map[string]bool
-	freshRefs  map[string]bool
+	freshRefs  map[string]int // reference term -> script position of its allocation
 	keyGoType  map[string]types.Type
 	opaque     map[string]*opaqueInfo
 	tables     map[string]*tableInfo
@@ -277,8 +279,8 @@ func (vc *FuncVC) subRef(st types.Type, f int, r Term) Term {
 		vc.extraDecls = append(vc.extraDecls, fmt.Sprintf("(assert (forall ((r Int)) (! (and (= (reftag (%s r)) tag_%s) (= (refowner (%s r)) r) (= (refroot (%s r)) (refroot r)) (=> (not (= r 0)) (> (%s r) 0))) :pattern ((%s r)))))", name, name, name, name, name, name))
 	}
 	t := app(SInt, name, r) // canonical term: the same sub-object has the same text everywhere
-	if vc.freshRefs[r.S] {
-		vc.freshRefs[t.S] = true
+	if pos, ok := vc.freshRefs[r.S]; ok {
+		vc.freshRefs[t.S] = pos
 	}
 	if strings.Contains(r.S, "?") {
 		return t
@@ -305,8 +307,8 @@ func (vc *FuncVC) elemRef(base, idx Term) Term {
 		}
 		vc.tables[t.S] = sub
 	}
-	if vc.freshRefs[base.S] {
-		vc.freshRefs[t.S] = true
+	if pos, ok := vc.freshRefs[base.S]; ok {
+		vc.freshRefs[t.S] = pos
 	}
 	if strings.Contains(t.S, "?") {
 		return t
@@ -747,9 +749,9 @@ func (vc *FuncVC) assumeZeroObj(st *State, ref Term, t types.Type) {
 func (vc *FuncVC) newRef(st *State, hint string) Term {
 	r := vc.sc.Def(hint, st.Alloc)
 	if vc.freshRefs == nil {
-		vc.freshRefs = map[string]bool{}
+		vc.freshRefs = map[string]int{}
 	}
-	vc.freshRefs[r.S] = true
+	vc.freshRefs[r.S] = vc.sc.Pos()
 	st.Alloc = vc.sc.Def("alloc", app(SInt, "+", st.Alloc, intLit64(1)))
 	vc.sc.Assume(mkAnd(mkEq(app(SInt, "reftag", r), intLit64(0)), mkEq(app(SInt, "refroot", r), r)), "fresh refs are untagged roots")
 	return r
